@@ -1,6 +1,7 @@
 import PromqlVerif.Proto
 import PromqlVerif.Eng
 import PromqlVerif.Iter
+import PromqlVerif.Table
 open PromqlVerif
 
 structure DState where
@@ -74,6 +75,53 @@ def kernelView (s : DState) (what : String) (args : List String) : String :=
     | _, _ => "bad-op"
   | _, _, _ => "bad-op"
 
+/-- `id:bits,id:bits` -/
+def parseIdVec (s : String) : Option (IdVec Float) :=
+  if s.isEmpty then some []
+  else (s.splitOn ",").mapM fun p =>
+    match p.splitOn ":" with
+    | [i, b] => do
+      let i ← i.toNat?
+      let f ← parseBits b
+      some (i, f)
+    | _ => none
+
+def showStepRes : Except Err (IdVec Float) → String
+  | .error _ => "err"
+  | .ok out => String.intercalate "+" (out.map fun p => toString p.1 ++ ":" ++ showBits p.2)
+
+/-- `kernel table <card> <op> <bool> <n> h<high csv> l<low ; .> <steps>`: the tagged table of
+`binary/table.go` against a fresh table per step -/
+def tableView (args : List String) : String :=
+  match args with
+  | [card, op, bl, n, high, low, steps] =>
+    let r : Option String := do
+      let card ← card.toNat?
+      let card : Card := match card with | 0 => .oneToOne | 1 => .manyToOne | _ => .oneToMany
+      let op ← decS op
+      let n ← n.toNat?
+      let high ← (((high.drop 1).toString.splitOn ",").filter (· != "")).mapM fun h =>
+        if h == "-1" then some (none : Option Nat) else (h.toNat?).map some
+      let lowS := (low.drop 1).toString
+      let low ← (if lowS.isEmpty then some [] else
+        (lowS.splitOn ";").mapM fun l =>
+          ((l.splitOn ".").filter (· != "")).mapM String.toNat?)
+      let steps ← (steps.splitOn "#").mapM fun st =>
+        match st.splitOn "/" with
+        | [t, l, r] => do
+          let t ← t.toInt?
+          let l ← parseIdVec l
+          let r ← parseIdVec r
+          some (t, l, r)
+        | _ => none
+      let j : Join := { outputs := List.replicate n [], highIdx := high, lowIdx := low }
+      let tag := tagRun op (bl == "1") card j (Tbl.new n) steps
+      let fresh := freshRunD op (bl == "1") card j steps
+      some ("tag=" ++ String.intercalate "#" (tag.map showStepRes) ++ " fresh=" ++
+        String.intercalate "#" (fresh.map showStepRes))
+    r.getD "bad-op"
+  | _ => "bad-op"
+
 def stepLine (s : DState) (line : String) : DState × Option String :=
   let toks := (line.splitOn " ").filter (· != "")
   match toks with
@@ -103,6 +151,7 @@ def stepLine (s : DState) (line : String) : DState × Option String :=
       | some e => ({ s with query := some e }, none)
       | none => ({ s with bad := true }, none)
     | none => ({ s with bad := true }, none)
+  | "kernel" :: "table" :: args => (s, some ("kernel " ++ tableView args))
   | "kernel" :: what :: args => (s, some ("kernel " ++ (if s.bad then "bad-op" else kernelView s what args)))
   | ["eval", view] => (s, some (view ++ " " ++ evalView s view))
   | ["end"] => ({}, some "end")
